@@ -498,7 +498,9 @@ def tasks_for(tier):
     doubles = [[('I', 1), ('V', 2)], [('I', 2), ('V', 4)], [('O', 1), ('I', 1)], [('V', 3), ('O', 2)], [('V', 1), ('V', 2)]]
     # a store that reuses the input selected earlier, after an output request / after clock pulses / after another store
     doubles += [[('O', 1), ('V', 2)], [('K', '2'), ('V', 2)], [('I', 1), ('V', 1), ('O', 1), ('V', 2)], [('I', 1), ('V', 2), ('K', '1'), ('V', 2), ('O', 1)],
-                [('K', '3'), ('I', 1), ('K', '0'), ('O', 1)]]
+                [('K', '3'), ('I', 1), ('K', '0'), ('O', 1)],
+                # the SAME output requested again (directly, and with other commands in between): every request pulses the selection
+                [('O', '1'), ('O', '1')], [('O', '2A'), ('K', '1'), ('O', '2A')], [('O', '7'), ('I', 1), ('V', 2), ('O', '7')], [('I', '3'), ('I', '3')]]
     if not quick:
         doubles += [[('I', 1), ('V', 4), ('O', 1)], [('O', 2), ('O', 1)], [('I', 2), ('I', 1)], [('V', 4), ('V', 4)]]
     for cmds in singles + doubles:
